@@ -193,11 +193,11 @@ theorem sorted_filter_unique {α : Type} : ∀ (l1 l2 : List (Int × α)), Sorte
     have hab : a = b := by
       by_cases hp : a.1 = b.1
       · have := h a.1
-        simp [List.filter_cons, hp] at this
+        simp [hp] at this
         exact this.1
       · -- a occurs in `b :: t2`, b occurs in `a :: t1`
-        have ha : a ∈ (b :: t2).filter (fun y => y.1 == a.1) := by rw [← h a.1]; simp [List.filter_cons]
-        have hb : b ∈ (a :: t1).filter (fun y => y.1 == b.1) := by rw [h b.1]; simp [List.filter_cons]
+        have ha : a ∈ (b :: t2).filter (fun y => y.1 == a.1) := by rw [← h a.1]; simp
+        have hb : b ∈ (a :: t1).filter (fun y => y.1 == b.1) := by rw [h b.1]; simp
         have ha' := (List.mem_filter.mp ha).1
         have hb' := (List.mem_filter.mp hb).1
         rcases List.mem_cons.mp ha' with e | ha'
@@ -230,7 +230,7 @@ theorem scopeLoop_ok {caps : Caps} {qm sm : Mod} : ∀ {ts : List Tok} {r0 r : R
     · simp at h
     · have := scopeLoop_ok h
       constructor
-      · rw [this.1]; by_cases hc : ts.contains .request <;> simp [hc]
+      · rw [this.1]; simp
       · rw [this.2]; simp
   | .response :: ts, r0, r, h => by
     simp only [scopeLoop] at h
@@ -239,7 +239,7 @@ theorem scopeLoop_ok {caps : Caps} {qm sm : Mod} : ∀ {ts : List Tok} {r0 r : R
     · have := scopeLoop_ok h
       constructor
       · rw [this.1]; simp
-      · rw [this.2]; by_cases hc : ts.contains .response <;> simp [hc]
+      · rw [this.2]; simp
   | .other :: ts, r0, r, h => by simp [scopeLoop] at h
 
 /-- Scope projection: the result exposes exactly the sides named by the scope (absent scope: the
@@ -743,8 +743,8 @@ theorem filter_insertAll {α : Type} (p : Int) (xs : List (Int × α)) :
   | h1 xs x ih =>
     rw [insertAll_snoc, filter_ins, ih]
     by_cases hx : (x.1 == p) = true
-    · simp [hx, List.filter_cons]
-    · simp [hx, List.filter_cons]
+    · simp [hx]
+    · simp [hx]
 
 theorem fifoLoop_false_stop (pre : List Outcome) (t : Trace) (e : Err) (post : List Outcome)
     (hpre : ∀ o ∈ pre, o.2 = .none) (he : e ≠ .none) :
